@@ -84,7 +84,7 @@ func stemOf(n int, seed byte) []byte {
 // drawStems draws a family of stems that diverge at interesting offsets.
 func drawStems(t *rapid.T) [][]byte {
 	n := drawInt(t, 1, 3, "nstems")
-	base := stemOf(pick(t, []int{0, 3, 9, 10, 11, 12, 20, 33}, "stemlen"), byte(drawInt(t, 0, 5, "stemseed")))
+	base := stemOf(pick(t, []int{0, 3, 9, 10, 11, 12, 20, 33, 300}, "stemlen"), byte(drawInt(t, 0, 5, "stemseed")))
 	stems := [][]byte{base}
 	for len(stems) < n {
 		v := clone(base)
@@ -217,6 +217,8 @@ var textPools = [][]string{
 
 var plainPools = [][]string{
 	{"a", "b", "c", "x", "y", "z", "m"},
+	{"a", "A", "b", "B", "e", "E", "r", "R", "s", "S"},           // case variants (tertiary differences)
+	{"e", "é", "è", "E", "É", "o", "ö", "O", "u", "ü", "a", "á"}, // precomposed accents (secondary differences)
 	{"漢", "字", "中", "文"},
 	{"α", "β", "γ", "ω"},
 	{"а", "б", "в", "я"},
@@ -443,12 +445,12 @@ var allNumKindNames = []string{"u8", "u16", "u32", "u64", "uint", "i8", "i16", "
 var collCfgNames = []string{"und", "en-num", "de", "sv", "es-trad", "zh", "ja", "fr-CA", "ic", "id", "iw", "loose"}
 
 func drawCompoundKind(t *rapid.T) Kind {
-	nf := drawInt(t, 1, 4, "nfields")
+	nf := drawInt(t, 0, 4, "nfields")
 	k := &compoundKind{}
 	for i := 0; i < nf; i++ {
 		k.fields = append(k.fields, numKinds[pick(t, []string{"u8", "u16", "u32", "u64", "i8", "i16", "i32", "i64", "f32", "f64"}, "ftype")])
 	}
-	k.hasStr = drawInt(t, 0, 1, "hasstr") == 1
+	k.hasStr = nf == 0 || drawInt(t, 0, 1, "hasstr") == 1
 	return k
 }
 
